@@ -46,9 +46,12 @@ case "$cmd" in
     echo "setup ok";;
   replay)
     build
+    [ "$(cat "$B/inst/.thread_local" 2>/dev/null)" = 1 ] && export RXVERIF_NO_POOL=1
     exec "$B/target/release/vcheck" replay "${2:?file}";;
   C[0-9][0-9])
     build
+    # thread-local state in the tree under test: no pooling of OS threads (see rt/src/exec.rs pool_run)
+    [ "$(cat "$B/inst/.thread_local" 2>/dev/null)" = 1 ] && export RXVERIF_NO_POOL=1
     exec "$B/target/release/vcheck" check "$cmd" --tier "${2:-${VERIF_TIER:-quick}}";;
   *)
     echo "usage: run.sh <Cxx> <quick|thorough> | replay <file> | build | setup"; exit 2;;
